@@ -14,13 +14,14 @@ MANIFEST = dict(
          "against the real ORM comparing both sides read from __dict__ after every step. Lists holding the same child twice are a separate "
          "configuration that exposes the recorded duplicate-child defect. OrmOneToOne.tla does the same for a one-to-one pair (scalar on both "
          "sides, in-memory sets from either side, every edge replayed) and exposes the displaced-partner defect; OrmManyToMany.tla for a "
-         "many-to-many pair (two lists, append/insert/remove/pop/replace from either side, list order compared).",
+         "many-to-many pair (two lists, append/insert/remove/pop/replace/index and extended-slice assignment from either side, flush and commit + "
+         "reload against the association table, list order compared).",
     design_ref="3.9, 4 (C37), 6 (C37), Appendix I",
-    note="trusted: TLC, the transcription of the backref listeners; one-to-many/many-to-one pair (with flush and reload), one-to-one and many-to-many pairs (in memory); "
-         "slice assignment and set/dict collections not built; "
+    note="trusted: TLC, the transcription of the backref listeners; one-to-many/many-to-one pair (with flush and reload), one-to-one pair (in memory) and many-to-many pair (with flush and reload); "
+         "contiguous slice assignment and set/dict collections not built; "
          "all relationship attributes loaded/initialised (no unloaded or expired attribute paths); SQLite only",
     technique="TLA+ spec (OrmGraph.tla) + TLC exhaustive model checking; spec->code replay of every state-graph edge into the real ORM")
-MEM = ["Append", "Insert", "Remove", "Pop", "Replace", "SetParent"]
+MEM = ["Append", "Insert", "Remove", "Pop", "Replace", "SetItem", "Reverse", "SetParent"]
 ACTS = MEM + ["Add", "Flush", "CommitReload"]
 INVS = ["TypeOK", "BothSides", "NoDuplicates"]
 
@@ -77,42 +78,11 @@ def one_to_one(chk, rng, st):
 
 
 def many_to_many(chk, rng, st):
-    """third relationship kind: many-to-many pair L.rs <-> R.ls (OrmManyToMany.tla), in-memory list mutations from either side"""
+    """third relationship kind: many-to-many pair L.rs <-> R.ls (OrmManyToMany.tla): list mutations from either side (incl. index and
+    extended-slice assignment), flush, commit + reload in a fresh session; BothSidesMM on every state, list order compared"""
     q = chk.quick
-    ls, rs = ["l1", "l2"], ["r1", "r2"]
-    depth = 4 if q else 6
-    consts = dict(Ls=set(tlc.q(x) for x in ls), Rs=set(tlc.q(x) for x in rs), MaxDepth=depth)
-    cfgt = tlc.cfg(constants=consts, init="InitEmit", invariants=["BothSidesMM", "NoDuplicates"], view="View",
-                   action_constraints=["Emit"], constraints=["Depth"])
-    g = graph.dump("OrmManyToMany", cfgt, os.path.join(chk.work, "dump-many-to-many"), timeout=900)
-    r = g.tlc
-    if r.violated:
-        chk.violation({"spec": "OrmManyToMany", "action": "TLC", "invariant": str(r.violated)}, "TLC: %s violated in OrmManyToMany.tla" % r.violated)
-    cov = oc.action_counts(g)
-    for a in ("Append", "Insert", "Remove", "Pop", "Replace"):
-        if not cov.get(a):
-            chk.machinery("vacuous: action %s never taken in OrmManyToMany" % a)
-    walks, info = graph.plan_tours(g, depth, rng)
-    walks += graph.random_walks(g, 100 if q else 1000, depth, rng)
-    from checks.ormgraph_driver import DriverMM
-    from checks import ormgraph_shapes
-    ormgraph_shapes.models()
-    steps, mism = graph.replay(g, walks, lambda wid, wd: DriverMM(wid, wd, ls, rs), os.path.join(chk.work, "replay-many-to-many"), nproc=16)
-    for m in mism:
-        act = m["act"] if isinstance(m["act"], dict) else {"a": m["act"]}
-        chk.violation({"spec": "OrmManyToMany", "kind": "conformance", "action": act.get("a")},
-                      "real many-to-many pair diverges from OrmManyToMany.tla at %s%s: %s" % (act.get("a"), tuple(act.get("arg", ())), m["mismatch"]), m)
-    st["states"] += r.distinct
-    st["transitions"] += r.generated
-    st["edges"] += len(g.edges)
-    st["walks"] += len(walks)
-    st["steps"] += steps
-    st["nontrivial"] += sum(1 for e in g.edges if e[1]["a"] in ("Remove", "Pop", "Replace"))
-    st["per_config"]["many-to-many"] = dict(states=r.distinct, transitions=r.generated, edges=len(g.edges), walks=len(walks), steps=steps,
-                                            mismatches=len(mism), depth=r.depth, plan=info)
-    if walks:
-        w = walks[len(walks) // 2]
-        st["samples"].append({"config": "many-to-many", "walk": ["%s(%s)" % (g.edges[ei][1]["a"], ",".join(g.edges[ei][1]["arg"])) for ei in w]})
+    oc.run_mm(chk, rng, st, "many-to-many", True, oc.MM_MEM + ["Flush", "CommitReload"], 4 if q else 5,
+              ["BothSidesMM", "NoDuplicates", "RowsEqualGraphMM", "FkSoundMM"], ["RowsOnlyAtFlush"], init="both", nrandom=100 if q else 1000)
 
 
 def main(chk):
@@ -124,7 +94,10 @@ def main(chk):
             dict(name="default", casc="default", consts=oc.consts("default", 2, 4, acts=ACTS), invs=INVS, maxlen=4, nrandom=nr),
             dict(name="orphan", casc="orphan", consts=oc.consts("orphan", 2, 3, acts=ACTS + ["Expunge"]), invs=INVS, maxlen=3, nrandom=nr, footprint=ACTS),
             dict(name="dup", casc="default", consts=oc.consts("default", 2, 4, acts=MEM, init="loaded", dup=True), invs=["TypeOK", "BothSides_NoDup"],
-                 maxlen=4, nrandom=nr, footprint=MEM)]
+                 maxlen=4, nrandom=nr, footprint=MEM),
+            # index / extended-slice assignment on lists of up to three members (an odd-length reverse has a fixed point)
+            dict(name="setitem-2x3", casc="default", consts=oc.consts("default", 3, 5, acts=["Append", "SetItem", "Reverse", "Flush", "CommitReload"], init="loaded"),
+                 invs=INVS, maxlen=5, nrandom=nr, footprint=["Append", "SetItem", "Reverse", "Flush", "CommitReload"])]
         deep = [dict(name="deep-default", casc="default", consts=oc.consts("default", 2, 6, acts=ACTS), invs=INVS),
                 dict(name="deep-none-mem", casc="none", consts=oc.consts("none", 2, 6, acts=MEM + ["CommitReload"], init="loaded"), invs=INVS)]
     else:
@@ -155,6 +128,6 @@ def main(chk):
                   "away from a parent it currently has (re-parenting, removal, replacement)",
              checker_cmd="tlc OrmGraph.tla (VIEW View, ACTION_CONSTRAINT Emit)"),
         assumptions=["one-to-many / many-to-one pair with back_populates; list collection; %d parents x %d children" % (2, nc),
-                     "one-to-one pair (uselist=False) and many-to-many pair (2 x 2, duplicate-free lists): in-memory mutations only, no flush",
+                     "one-to-one pair (uselist=False): in-memory assignments only; many-to-many pair: 2 x 2, duplicate-free lists, persistent members",
                      "relationship attributes always loaded/initialised; autoflush off; SQLite file engine, foreign_keys=ON",
                      "duplicate children explored only for in-memory mutations (no flush)"])
